@@ -29,7 +29,7 @@ from hsim import runsim as R  # noqa: E402
 TEST_ADDR = 0x7FA9385BE102AC3EAC297483DD6233D62B3E1496
 CALLER = 0x1804C8AB1F12E6BBF3894D4083F33E07309D1F38
 VERDICT_OF_EXIT = {0: "PASS", 1: "FAIL", 2: "TIMEOUT", 3: "ERROR", 4: "ERROR", 5: "ERROR"}
-KINDS = ["loop", "loop", "loop_call", "loop_const", "loop_setup", "width", "depth", "depth", "stuck"]
+KINDS = ["loop", "loop", "loop_call", "loop_const", "loop_setup", "width", "depth", "depth", "stuck", "inv_loop"]
 
 
 def emit_counted_loop(a, bound_emit, ctr=0x1C0):
@@ -70,6 +70,8 @@ class Scenario:
         k = self.kind
         fns = {}
         abis = [A.abi_item(self.sig, ["n"])]
+        if k == "inv_loop":
+            abis = []
         if k in ("loop", "loop_call"):
             def loop_body(a):
                 emit_counted_loop(a, lambda a_: (a_.push(self.mask), a_.push(4), a_.op("CALLDATALOAD"), a_.op("AND")))
@@ -172,6 +174,45 @@ class Scenario:
                 fns["check_d(uint256)"] = body
                 abis.append(A.abi_item("check_d(uint256)", ["n"]))
             self.fail_inputs = [7]
+        elif k == "inv_loop":
+            # invariant test: the target's mutator runs the counted loop and stores the trip count; the invariant says v != K
+            from evm.asm import initcode_for
+
+            def target_mut(a):
+                emit_counted_loop(a, lambda a_: (a_.push(self.mask), a_.push(4), a_.op("CALLDATALOAD"), a_.op("AND")))
+                a.push(0x1C0).op("MLOAD").push(0).op("SSTORE").op("STOP")
+
+            def target_get(a):
+                a.push(0).op("SLOAD").push(0x80).op("MSTORE").push(0x20).push(0x80).op("RETURN")
+
+            self.target_rt = A.build_runtime({"run(uint256)": target_mut, "getV()": target_get})
+            self.target_abis = [A.abi_item("run(uint256)", ["n"]), A.abi_item("getV()", outputs=["uint256"], mutability="view")]
+            tinit = initcode_for(self.target_rt)
+            self.target_init = tinit
+            self.k = max(self.k, 1)  # v == 0 initially: K = 0 would already fail at depth 0
+            self.options["invariant_depth"] = 1
+            self.sig = "invariant_v()"
+
+            def setup(a):
+                tag = a.fresh("tinit")
+                a.push(len(tinit)).ref(tag).push(0x200).op("CODECOPY")
+                a.push(len(tinit)).push(0x200).push(0).op("CREATE").push(0).op("SSTORE").op("STOP")
+                a.mark(tag).raw(tinit)
+
+            def invariant(a):
+                sel = int.from_bytes(A.selector("getV()"), "big")
+                a.push(sel << 224).push(0x300).op("MSTORE")
+                a.push(0x20).push(0x320).push(4).push(0x300).push(0).op("SLOAD").push(0xFFFF).op("STATICCALL").op("POP")
+                ok = a.fresh("ok")
+                a.push(0x320).op("MLOAD").push(self.k).op("EQ").op("ISZERO").jumpi(ok)
+                A.emit_panic(a, 1)
+                a.label(ok)
+                a.op("STOP")
+
+            fns["setUp()"] = setup
+            fns[self.sig] = invariant
+            abis = [A.abi_item("setUp()"), A.abi_item(self.sig)]
+            self.fail_inputs = [self.k]  # run(K) breaks the invariant after one call
         else:  # stuck
             self.nested = ch.chance(0.6, "s.nested")
             self.guard = ch.int(0, 9, "s.guard")
@@ -212,6 +253,12 @@ class Scenario:
         cj = A.contract_json(name, f"test/{name}.sol", self.rt, self.abis)
         return cj
 
+    def extra_artifacts(self):
+        if self.kind != "inv_loop":
+            return []
+        tcj = A.contract_json("LoopTarget", "src/LoopTarget.sol", self.target_rt, self.target_abis, creation=self.target_init, ast_id=20)
+        return [("LoopTarget.sol", "LoopTarget", tcj)]
+
     def reference_fails(self, n):
         w = World()
         w.code[TEST_ADDR] = self.rt
@@ -225,6 +272,15 @@ class Scenario:
             return True, b""
 
         evm = RefEVM(w, cheat=cheat, cheat_addrs=(A.VM_ADDR, A.SVM_ADDR), addr_oracle=lambda *a: 0xC0DE, max_steps=50000)
+        if self.kind == "inv_loop":
+            fr = evm.run_tx(TEST_ADDR, CALLER, CALLER, 0, A.selector("setUp()"))
+            if fr.error is not None:
+                return False
+            fr = evm.run_tx(0xC0DE, CALLER, CALLER, 0, A.selector("run(uint256)") + n.to_bytes(32, "big"))
+            if fr.error is not None:
+                return False
+            fr = evm.run_tx(TEST_ADDR, CALLER, CALLER, 0, A.selector(self.sig))
+            return fr.error == "revert" and fr.output[:4] == bytes.fromhex("4e487b71")
         if "setUp()" in self.fns:
             fr = evm.run_tx(TEST_ADDR, CALLER, CALLER, 0, A.selector("setUp()"))
             if fr.error is not None:
@@ -282,7 +338,7 @@ class C10Check:
         args = R.make_args(solver_threads=threads, panic_error_codes={1}, **sc.options)
         cj = sc.artifacts("T")
         cj2 = sc.artifacts("U")
-        bom = A.build_out_map([("T.sol", "T", cj), ("U.sol", "U", cj2)])
+        bom = A.build_out_map([("T.sol", "T", cj), ("U.sol", "U", cj2)] + sc.extra_artifacts())
         sigs = [sc.sig] + (["check_d(uint256)"] if sc.history == "two_tests" else [])
         rounds = []
 
@@ -336,6 +392,8 @@ class C10Check:
                     probes["verdict_" + str(verdict)] = probes.get("verdict_" + str(verdict), 0) + 1
                     flagged = bool(r.num_bounded_loops) or any(any(wd in m for wd in FLAG_WORDS) and r.name.split("(")[0] in m for m in logs) \
                         or any("setUp" in m and "loop unrolling bound" in m for m in logs)
+                    if sc.kind == "inv_loop" and any("loop unrolling bound" in m and "run(uint256)" in m for m in logs):
+                        flagged = True  # the cut is reported for the target function whose loop was cut
                     if flagged:
                         probes["flagged"] = probes.get("flagged", 0) + 1
                     if verdict != "PASS":
@@ -351,6 +409,12 @@ class C10Check:
                             vio.append(dict(oracle="C10:concrete-loop-cut", disc=f"loop={sc.loop}:trip={sc.c}",
                                             detail=f"[PASS] although n=9 fails after a loop with the concrete trip count {sc.c}; --loop {sc.loop}"))
                         elif not flagged:
+                            if sc.kind == "inv_loop":
+                                vio.append(dict(oracle="C10:silent-cut", disc="invariant-target",
+                                                detail=f"[PASS] for {r.name} (--invariant-depth 1, --loop {sc.loop}) without any bound warning although "
+                                                       f"the single call run({fails[0]}) breaks v != {sc.k} on the reference EVM: the loop inside the "
+                                                       f"target was cut after {sc.loop} iterations; log of that run: {logs[-3:]}"))
+                                continue
                             where = {"once": "first-run", "twice": "repeat-in-process", "two_contracts": "second-contract",
                                      "two_tests": "second-test"}[sc.history] if (ri > 0 or r.name != sc.sig) else "first-run"
                             vio.append(dict(oracle="C10:silent-cut", disc=f"{sc.kind}:{where}",
